@@ -264,9 +264,9 @@ def planeUpgradeBatch (rel : Rel) (batch : Int) (d : Option Wl) (f : Fault) : Ou
     match rel.batches[batch.toNat]? with
     | none => .panic
     | some e =>
-      -- daemonset: `rc.object.Spec.UpdateStrategy.RollingUpdate.Partition`
-      if w.kind = .daemonSet ∧ hasRU w.us = false then .panic
-      else .val (commit w (ctrlUpgradeBatch w r e rel.noNeedUpdate) f none)
+      -- daemonset (fixed code): `RollingUpdate != nil && RollingUpdate.Partition != nil`, else the current
+      -- partition is 0 — which is `currentPartition` of a strategy without the block
+      .val (commit w (ctrlUpgradeBatch w r e rel.noNeedUpdate) f none)
 
 /-- the `paused` key of a complete `Finalize`: the DaemonSet control writes `"paused":false`, the StatefulSet one none -/
 def finPaused (k : Kind) : Option Bool :=
